@@ -51,7 +51,7 @@ func init() {
 }
 
 // NumVariants per module (0,1 valid; others invalid).
-var NumVariants = []int{14, 5, 11, 11, 5, 7}
+var NumVariants = []int{14, 5, 11, 12, 6, 8}
 
 type RS struct {
 	M   int  `json:"m"`
@@ -97,6 +97,14 @@ func (r RS) Valid() bool {
 	}
 	return true
 }
+
+// NotANumber: the variant carries a NaN (such a rule is not even equal to itself, and cannot be written in JSON).
+func (r RS) NotANumber() bool {
+	return !r.Nil && ((r.M == Flow && r.Var == 12) || (r.M == Breaker && r.Var == 11) || (r.M == System && r.Var == 5) || (r.M == Outlier && r.Var == 7))
+}
+
+// NotJSON: the variant cannot be written in JSON.
+func (r RS) NotJSON() bool { return r.NotANumber() || (r.M == Flow && r.Var == 13) }
 
 func (r RS) Blocker() bool { return r.Valid() && r.Var == 1 }
 
@@ -306,6 +314,9 @@ func BuildBreaker(r RS) *cb.Rule {
 	case 10:
 		// a user-registered strategy whose generator declines the rule (returns an error): no breaker exists
 		x.MinRequestAmount, x.Strategy, x.Threshold = 0, DeclinedCbStrategy, 0
+	case 11:
+		// not a number: no count or ratio ever "reaches" it
+		x.MinRequestAmount, x.Threshold = 0, math.NaN()
 	}
 	if r.Var <= 1 {
 		switch r.Hid {
@@ -358,6 +369,9 @@ func BuildSystem(r RS) *system.Rule {
 		x.TriggerCount, x.MetricType = 0, system.MetricType(99)
 	case 4:
 		x.MetricType, x.TriggerCount = system.CpuUsage, 1.5
+	case 5:
+		// not a number: "the value is below the trigger" is false for every value, the rule would block everything
+		x.TriggerCount = math.NaN()
 	}
 	if r.Var <= 1 {
 		switch r.Hid {
@@ -392,6 +406,8 @@ func BuildOutlier(r RS) *outlier.Rule {
 	case 6:
 		// a strategy for which no breaker can be generated: a rule that could never eject anything
 		x.Rule.Strategy = cb.Strategy(7)
+	case 7:
+		x.MaxEjectionPercent = math.NaN()
 	}
 	if r.Var <= 1 {
 		switch r.Hid {
